@@ -71,6 +71,16 @@ CLAIMS = {
         text="Machine-checked for every table set and instruction sequence the loader accepts (with at most one OpMemoryModel and no OpFunctionParameter after its function's first label): each of the 11 sections and the function part of the loaded module is exactly the sub-sequence of the input destined to it, so the assembled instruction sequence is a permutation of the input (nothing dropped, duplicated, invented), every part keeps the input's relative order, an input in layout order comes back identical, and the assembled words are [magic, input version, generator, input bound, 0] followed by the per-instruction encodings. Instruction-level word equality (each parsed instruction re-encodes to the words it came from, up to string padding) and the reload equality are decided by the differential, not a theorem: C01_partial at that layer.",
         note="Trusted: Lean kernel + standard axioms; hand models Loader/LoadBytes/Assemble tied by the loadasm channel (layout-ordered, section-permuted, duplicated-instruction and garbage-padded modules over all core opcodes; outputs loaded again); known finding: a late OpFunctionParameter is moved in front of the blocks.",
         ref="DESIGN.md §8 C01"),
+    "C02": dict(
+        technique="Lean 4: the grammar as a recogniser over word lists (Model/Spec.lean, no buffer/limits/errors), a refinement proof that the parser model accepts exactly what it accepts with the same instruction (Props/ParserSpec.lean), and a family of re-encoding lemmas by induction over the recogniser: an instruction it produces is recognised again from the assembler's words for it (C02_spec), lifted to the parser model on the assembled bytes (C02); differential on every opcode x quantifier shape x enumerant/bit against an independent encoder",
+        text="Machine-checked for the tables regenerated from the working tree: for every instruction i of the grammar (recognised by Spec.inst from some words under any tracked types) whose encoding fits the 16-bit word count: the assembler's first word is word count << 16 | opcode with the word count equal to the number of words emitted, followed by result type, result id and the operands' encodings (enumerants/masks as their value, 64-bit literals low word first, strings NUL-terminated, zero-padded); writing those words as little-endian bytes anywhere in a buffer and parsing there delivers exactly i and stops in front of whatever follows. 'Instruction of the grammar' is defined by the recogniser, which C03 shows to be what the parser accepts; a declarative grammar independent of any recogniser is not formalised.",
+        note="Trusted: Lean kernel + standard axioms; translators (tables); hand models Parser/Assemble tied by the asm+parse channels; table facts reused from C04 (tablesSafe), C08 (from_u32 returns its argument), C09 (result kinds lead).",
+        ref="DESIGN.md §11.3"),
+    "C03": dict(
+        technique="Lean 4 refinement proof: every routine of the statement-by-statement parser model (decoder state, limits, offsets, panic sites) started inside an instruction whose remaining words are ws behaves as the specification recogniser on ws — success with the same value and remaining words, or no success; exact limit accounting on successful paths (an instruction whose declared extent overruns the stream is never accepted); Complete only at the end of the stream; stream-level theorem by induction over the parse loop",
+        text="Machine-checked for the regenerated tables, every byte string below 2^63 bytes and a continuing consumer: the parse succeeds iff the binary has five header words with the magic number first and the recogniser consumes every instruction word (word count non-zero, opcode known, extent inside the stream, operands matching the grammar with no word left over); the consumer receives initialize, the header, exactly the recognised instructions in stream order each once, and finalize iff the parse succeeds; on rejection it never receives finalize and the result is an instruction-level error other than Complete, or the header errors for short / wrong-magic / byte-swapped headers. What the error value carries (kind, instruction number, byte offset) is decided by the differential and its oracle: C03_partial at that layer. Consumers that stop are C14's subject.",
+        note="Trusted: as C02. Known finding: BankBitsINTEL's variadic parameter (Khronos grammar) is read as one literal.",
+        ref="DESIGN.md §11.3"),
     "C04": dict(
         technique="Lean 4 theorem: no panic site of the parser/decoder/tracker model is reachable, for every byte string and consumer, by induction over the parse with an abstract interpretation of parse_operands over each grammar entry (proved sound, evaluated by the kernel on the regenerated tables); loader composition via the C14 trace-shape theorem; differential on a systematic malformed stream",
         text="Machine-checked: every assert!/expect/index/panic!()/overflow of binary/parser.rs, decoder.rs, tracker.rs and the generated parse_operand is an explicit panic outcome of the model, and for the tables regenerated from the working tree, every byte string below 2^63 bytes and every consumer behaviour, Parser::parse returns Ok or an error value (theorem C04); load_bytes never panics (C04_loader); every decoder request on any buffer with any limit is panic-free (C11). That accepted modules assemble and disassemble without panic is decided by the differential (assembler/disassembler models are total functions), on every accepted module of the stream.",
